@@ -95,6 +95,23 @@ int main(int argc, char** argv) {
             else if (x < 92) { std::vector<std::tuple<std::string, char*, std::size_t>> tl; scan<char>(st, "", scan_endpoint::INF, "", scan_endpoint::INF, tl); }
             else { iscan_context* ctx = nullptr; void* v = nullptr; status rc = iscan_open(st, "", scan_endpoint::INF, "", scan_endpoint::INF, rng() % 2, false, ctx, v); if (rc == status::OK && rng() % 2) iscan_next(ctx, v); if (ctx) iscan_close(ctx); }
         }
+        // racing overwrites (seed C11d): one thread overwrites one key with large values while two others insert / remove its neighbours in
+        // the same border.  The overwrite path retries when the border changed between its optimistic lookup and the lock; whatever an
+        // abandoned attempt allocated must not stay behind (free-running threads, not scheduler controlled)
+        if (long nr = argi("raceops", 3000)) {
+            char r8[8] = "racebas"; put<char>(tok, st, "ra", r8, 8);
+            std::vector<std::thread> th; std::atomic<int> go{0};
+            for (int q = 0; q < 3; q++) th.emplace_back([&, q] {
+                Token t{}; bool in = enter(t) == status::OK; go++; while (go.load() < 3) { _mm_pause(); }
+                if (!in) return;
+                std::vector<char> big(2048, (char)q); char w8[8] = "racenbr";
+                for (long i = 0; i < nr; i++) {
+                    if (q == 0) put<char>(t, st, "ra", big.data(), big.size());
+                    else { std::string k = q == 1 ? "rb" : "rc"; put<char>(t, st, k, w8, 8); remove(t, st, k); }
+                }
+                leave(t); });
+            for (auto& x : th) x.join();
+        }
         // empty whole nodes: remove a sorted run of keys
         for (int i = 0; i < 80; i += 1 + (int)(rng() % 2)) remove(tok, st, "k" + std::to_string(i));
         // several whole nodes retired by ONE session: keys below distinct 8-byte prefixes, each removal unlinks a next-layer root border;
